@@ -1,12 +1,13 @@
 (* C06 - Wrap: no line exceeds the width; breaking is greedy and stable. Proved so far (about
-   the model): widths below 2 act as 2, and Wrap is total - its word loop ends within its
-   fuel for every text, width and separator. The width bound, spacing, greediness and
-   idempotence on seam-safe text are judged on every generated case by the executable
-   checker check_C06 (and the two-step idempotence cases); their general proofs are not in
-   the development yet (DESIGN.md section 5). *)
+   the model): widths below 2 act as 2; Wrap is total; and no line of the wrapped block is
+   wider than the clamped width whenever the space-collapsed text consists of safe clusters
+   (none starts with an extending character or ends in a Prepend character - the
+   degenerate-seam class D11 is exactly what this excludes). Spacing, greediness and
+   idempotence are judged on every generated case by the executable checker check_C06 and
+   the wrap-twice cases; their general proofs are not in the development yet. *)
 From Coq Require Import List Bool ZArith Lia.
 Import ListNotations.
-From Rosed Require Import Base.Res Base.ListX Gem.Segment Gem.GString Model.Tb Model.Manip Model.Table Proofs.C06P.
+From Rosed Require Import Base.Res Base.ListX Gem.Segment Gem.GString Model.Tb Model.Manip Model.Table Proofs.SeamP Proofs.C13P Proofs.C06P Proofs.C06Q.
 Open Scope Z_scope.
 
 Theorem C06_clamp : forall (C : Classifier) text w sep, wrap text w sep = wrap text (Z.max w 2) sep.
@@ -22,3 +23,10 @@ Theorem C06_word_loop : forall (C : Classifier) (U : Upper) lines curWord curLin
   exists r, append_word_to_wrapped_line lines curWord curLine width = Ok r.
 Proof. intros C U. exact append_word_to_line_total. Qed.
 Print Assumptions C06_word_loop.
+
+(* the width bound: every line of the block holds at most max(w,2) clusters *)
+Theorem C06_width : forall (C : Classifier) (K : ClassifierOk) (U : Upper) text w sep ct b,
+  collapse_space text sep = Ok ct -> all_safe ct -> wrap text w sep = Ok b ->
+  Forall (fun l => glen l <= Z.max w 2) (b_lines b).
+Proof. intros C K U. exact wrap_width. Qed.
+Print Assumptions C06_width.
